@@ -59,6 +59,7 @@ pub fn c10_racing_first_requests_share_the_child() {
     assert!(again.get() == c1.get(), "C10 later requests see the child that holds the updates");
     std::mem::forget((c1, c2, again));
     std::mem::forget(v);
+    vcover!(true, "end of harness reached");
 }
 
 fn remove_case(reset: bool) {
@@ -93,6 +94,7 @@ fn remove_case(reset: bool) {
     kani::stub(parking_lot::RawRwLock::unlock_shared_slow, pl_unlock_shared_slow))]
 pub fn c10_remove_then_recreate_starts_from_zero() {
     remove_case(false);
+    vcover!(true, "end of harness reached");
 }
 /// Same with reset() instead of remove.
 #[cfg_attr(kani, kani::proof, kani::unwind(5),
@@ -106,6 +108,7 @@ pub fn c10_remove_then_recreate_starts_from_zero() {
     kani::stub(parking_lot::RawRwLock::unlock_shared_slow, pl_unlock_shared_slow))]
 pub fn c10_reset_then_recreate_starts_from_zero() {
     remove_case(true);
+    vcover!(true, "end of harness reached");
 }
 
 /// T1 looks up (hit is impossible: T2 removed the child in the gap) — T1: read-lock hit returns
@@ -139,6 +142,7 @@ pub fn c10_lookup_vs_remove_and_recreate() {
     assert!(v.v.children.read().len() == 1, "C10 a collection never shows the same label values twice");
     std::mem::forget((c_old, c_new, c1));
     std::mem::forget(v);
+    vcover!(true, "end of harness reached");
 }
 
 /// Removing label values that have no child is an error and changes nothing.
@@ -160,6 +164,7 @@ pub fn c10_remove_missing_child_is_an_error() {
     assert!(v.v.children.read().len() == 0);
     std::mem::forget(r);
     std::mem::forget(v);
+    vcover!(true, "end of harness reached");
 }
 
 pub fn dispatch(name: &str) -> Option<fn()> {
